@@ -62,6 +62,21 @@ class Cx:
     def pyint(self, name, lo=None, hi=None):
         return self.int(name, lo, hi, S.pyint)
 
+    def bool(self, name):
+        v = z3.Bool(name)
+        self._reg(name, "bool", v)
+        self.named[name] = v
+        return S._mk(S.bool_, v)
+
+    def concrete_int(self, x):
+        """Concretise a (possibly symbolic) integer leaf on this path (forks over its feasible values)."""
+        if isinstance(x, S.generic):
+            return x.__index__()
+        return int(x)
+
+    def concrete_bool(self, x):
+        return bool(x)
+
     def assume(self, *exprs):
         for e in exprs:
             if isinstance(e, S.generic):
@@ -243,6 +258,11 @@ def _round_inputs(cx, model):
             continue
         if nanvar is not None:
             pins.append(z3.Not(nanvar))
+        if kind == "bool":
+            b = z3.is_true(model.eval(var, model_completion=True))
+            vals[name] = b
+            pins.append(var if b else z3.Not(var))
+            continue
         fr = core.frac_of(model.eval(var, model_completion=True))
         if kind == "int":
             vals[name] = int(fr)
@@ -339,7 +359,9 @@ def run_instance(harness, name, params, *, known=(), opts=None, pinned=None):
                 if nm not in pinned:
                     continue
                 v = pinned[nm]
-                if v == "nan":
+                if kind == "bool":
+                    ex.assume(var if v else z3.Not(var))
+                elif v == "nan":
                     ex.assume(nanvar)
                 else:
                     if nanvar is not None:
